@@ -1,0 +1,8 @@
+//go:build !verif
+
+package filesystem
+
+// verifFault is a no-op unless the verif build tag is set.
+func verifFault(_ string, _ string) error {
+	return nil
+}
